@@ -95,11 +95,23 @@ class Runner:
             cmd += ["--exclude", ",".join(sorted(exclude))]
         return cmd
 
+    def budget_scale(self):
+        """Global CPU cap per tier: if the declared worst case (sum of shards x per-shard CPU budget) of this
+        property exceeds the cap, every per-shard budget is scaled down proportionally (the scaled value is
+        what the evidence reports). Confirmed shards stop early, so typical cost is far below the cap."""
+        if getattr(self, "_scale", None) is None:
+            cap = float(os.environ.get("VERIF_CPU_CAP_" + self.tier.upper(),
+                                       "0" if self.tier == "quick" else "9600"))
+            total = sum(h.nshards.get(self.tier, 1) * h.tier_params(self.tier)["timeout"]
+                        for h in self.hs.values())
+            self._scale = min(1.0, cap / total) if cap > 0 and total > 0 else 1.0
+        return self._scale
+
     def run_worker(self, h, shard, nshards, reach=None, exclude=()):
         tp = h.tier_params(self.tier)
-        budget = tp["reach_timeout"] if reach else tp["timeout"]
-        r = _run_json(self.worker_cmd(h, shard, nshards, reach, exclude), "@@RESULT",
-                      budget * 12.0 + 600)
+        budget = tp["reach_timeout"] if reach else max(20.0, tp["timeout"] * self.budget_scale())
+        cmd = self.worker_cmd(h, shard, nshards, reach, exclude) + ["--timeout", "%.0f" % budget]
+        r = _run_json(cmd, "@@RESULT", budget * 12.0 + 600)
         r.update(harness=h.name, shard=shard, nshards=nshards, reach=reach,
                  exclude=sorted(exclude))
         return r
@@ -337,6 +349,10 @@ class Runner:
             conf = all(s in ("CONFIRMED", "EMPTY") for s in sts) and "CONFIRMED" in sts
             exhaustive = exhaustive and conf
             tp = h.tier_params(self.tier)
+            if self.budget_scale() < 1.0:
+                tp = dict(tp, timeout=round(max(20.0, tp["timeout"] * self.budget_scale())),
+                          timeout_note="per-shard CPU budget scaled by %.2f to keep the property's worst case "
+                                       "under the %s-tier CPU cap" % (self.budget_scale(), self.tier))
             harness_tbl.append(dict(
                 harness=hname, doc=h.doc, units=h.units, stubs=h.stubs, outside=h.outside,
                 bounds={k: v for k, v in tp.items()},
